@@ -310,6 +310,7 @@ class NodeEnv:
         t = m.fresh('now')
         m.pc.append(sym.and_(sym.ge(t, self.clock), sym.le(t, (2 ** 63))))
         self.clock = t
+        m.event('clock', t)
         return t
 
     # ---- boundary --------------------------------------------------------------
